@@ -1478,27 +1478,47 @@ pub fn eval_mov_seq(code: &[u8], n: usize, rd: R, sf: u8) -> Option<u64> {
     Some(v & mask)
 }
 
+/// An assembler whose buffer already holds five NOPs, positioned at 0: what is emitted next overwrites
+/// them in place. The buffer length then stays concrete -- a Vec growing by a symbolic number of words
+/// makes CBMC run out of memory -- and the emitted words are the same (these helpers do not look at the
+/// position). `emitted` returns the buffer and the number of words written.
+pub fn prefilled() -> AssemblerArm64 {
+    let mut a = AssemblerArm64::new();
+    a.nop();
+    a.nop();
+    a.nop();
+    a.nop();
+    a.nop();
+    a.set_position(0);
+    a
+}
+pub fn emitted(a: AssemblerArm64) -> (Vec<u8>, usize) {
+    let pos = a.position();
+    let code = code_of(a);
+    crate::vp_check!(pos % 4 == 0 && pos <= code.len(), "whole instruction words emitted");
+    let n = if pos <= code.len() { pos / 4 } else { 0 };
+    (code, n)
+}
+
 crate::vp_harness!(mov_imm, unwind = 66, |s| {
     let (d, qd) = reg(s); let imm = s.i64();
-    let mut a = AssemblerArm64::new();
+    let mut a = prefilled();
     a.mov_imm(d, imm);
-    let code = code_of(a);
-    let n = code.len() / 4;
+    let (code, n) = emitted(a);
     let v = eval_mov_seq(&code, n, qd, 64);
-    crate::vp_note!("{} value {:x?} want {:x}", words_note(&code), v, imm as u64);
-    crate::vp_check!(code.len() % 4 == 0 && n >= 1 && n <= 4, "one to four instruction words");
+    crate::vp_note!("{} value {:x?} want {:x}", words_note(&code[..4 * n]), v, imm as u64);
+    crate::vp_check!(n >= 1 && n <= 4, "one to four instruction words");
     crate::vp_check!(qd != R::Sp, "a wide move cannot target SP");
     crate::vp_check!(v == Some(imm as u64), "sequence leaves the requested constant in rd");
 });
 crate::vp_harness!(mov_imm_w, unwind = 66, |s| {
     let (d, qd) = reg(s); let imm = s.i32();
-    let mut a = AssemblerArm64::new();
+    let mut a = prefilled();
     a.mov_imm_w(d, imm);
-    let code = code_of(a);
-    let n = code.len() / 4;
+    let (code, n) = emitted(a);
     let v = eval_mov_seq(&code, n, qd, 32);
-    crate::vp_note!("{} value {:x?} want {:x}", words_note(&code), v, imm as u32);
-    crate::vp_check!(code.len() % 4 == 0 && n >= 1 && n <= 2, "one or two instruction words");
+    crate::vp_note!("{} value {:x?} want {:x}", words_note(&code[..4 * n]), v, imm as u32);
+    crate::vp_check!(n >= 1 && n <= 2, "one or two instruction words");
     crate::vp_check!(qd != R::Sp, "a wide move cannot target SP");
     crate::vp_check!(v == Some(imm as u32 as u64), "sequence leaves the requested constant in rd");
 });
@@ -1506,13 +1526,12 @@ crate::vp_harness!(mov_imm_w, unwind = 66, |s| {
 /// ldr_mem_* / str_mem_*(rt, [base, #offset], scratch): access `size` bytes at base + offset.
 /// Either one LDR/STR (scaled unsigned offset) or LDUR/STUR (unscaled) with exactly that offset, or the
 /// offset materialised in `scratch` followed by the register-offset form [base, scratch].
-pub fn chk_mem_helper(code: &[u8], load: bool, size: u8, sf: u8, rt: R, base: R, off: i64, scratch: R) {
-    let n = code.len() / 4;
-    crate::vp_note!("{} off {} scratch {:?}", words_note(code), off, scratch);
-    crate::vp_check!(code.len() % 4 == 0 && n >= 1 && n <= 5, "one to five instruction words");
-    if n == 0 {
+pub fn chk_mem_helper(code: &[u8], n: usize, load: bool, size: u8, sf: u8, rt: R, base: R, off: i64, scratch: R) {
+    crate::vp_check!(n >= 1 && n <= 5 && code.len() >= 4 * n, "one to five instruction words");
+    if n == 0 || n > 5 || code.len() < 4 * n {
         return;
     }
+    crate::vp_note!("{} off {} scratch {:?}", words_note(&code[..4 * n]), off, scratch);
     let last = decode(word_at(code, n - 1));
     let ok = if n == 1 {
         let scaled = q_mem(if load { Op::LdrOff } else { Op::StrOff }, size, sf, rt, base, off);
@@ -1539,10 +1558,10 @@ macro_rules! mem_helper {
         let (n, qn) = reg($s);
         let off = $s.i64();
         let (sc, qs) = scratch_reg($s, qn, if $load { R::None } else { qt });
-        let mut a = AssemblerArm64::new();
+        let mut a = prefilled();
         a.$m(t, MemOperand::new(n, off), sc);
-        let code = code_of(a);
-        chk_mem_helper(&code, $load, $size, $sf, qt, qn, off, qs);
+        let (code, k) = emitted(a);
+        chk_mem_helper(&code, k, $load, $size, $sf, qt, qn, off, qs);
     }};
 }
 macro_rules! mem_helper_v {
@@ -1551,10 +1570,10 @@ macro_rules! mem_helper_v {
         let (n, qn) = reg($s);
         let off = $s.i64();
         let (sc, qs) = scratch_reg($s, qn, R::None);
-        let mut a = AssemblerArm64::new();
+        let mut a = prefilled();
         a.$m(t, MemOperand::new(n, off), sc);
-        let code = code_of(a);
-        chk_mem_helper(&code, $load, $size, 0, qt, qn, off, qs);
+        let (code, k) = emitted(a);
+        chk_mem_helper(&code, k, $load, $size, 0, qt, qn, off, qs);
     }};
 }
 crate::vp_harness!(ldr_mem_x, unwind = 66, |s| { mem_helper!(s, ldr_mem_x, true, 8, 64) });
